@@ -271,6 +271,11 @@ def text_with_vectors(rng, pool=None):
         if rng.chance(0.06) and v.startswith("CVSS:3."):
             # a non-ASCII digit in the minor version: matched by an unrestricted \d, not a valid prefix
             v = v[:7] + rng.choice(["\uff10", "\uff11", "\u0661", "\u00b9"]) + v[8:]
+        if rng.chance(0.07) and v.count("/") > 3:
+            # a vector wrapped after a separator, continuation line indented (e-mails, PDF exports)
+            cut = [i for i, c in enumerate(v) if c == "/"]
+            i = rng.choice(cut[1:]) + 1
+            v = v[:i] + rng.choice(["\n", "\r\n", " \n  ", "\n\t", "\n> "]) + v[i:]
         parts.append(v)
         if rng.chance(0.15):
             parts.append(rng.choice(GLUE))
